@@ -110,6 +110,8 @@ class Run:
         self.level = level
         ns = {n: _tagged(param)() for n in NAMES}
         ns['dyn'] = param.Number(default=0.5)       # may hold a value generator; never watched, only triggered
+        ns['ev'] = param.Event()                    # announced by trigger at quiet moments; has a watcher of its own
+        self.ev_log = []
         # in some instance-level runs the last parameter is a constant: the only assignments it accepts are re-assignments
         # of the very object it holds (and trigger); they are announced like any other
         self.const = set()
@@ -134,6 +136,7 @@ class Run:
             self.model[(n, 'value')] = getattr(self.o, n) if n in self.const else None
             for s in SLOTS:
                 self.model[(n, s)] = None
+        self.o.param.watch(lambda e: self.ev_log.append((e.new, e.type, self.o.ev)), 'ev')
         self.class_defaults_changed = 0
         if level == 'instance' and rng.random() < 0.3:
             # before anything is assigned on the instance, it is given Parameter objects of its own (its namespace is read)
@@ -695,6 +698,8 @@ class Run:
             return ('watch',)
         if c < 0.96 and self.level == 'class':
             return ('spawn', rng.choice(NAMES), V.pool(rng))
+        if c < 0.965 and 'trigger' in F:
+            return ('trigger-event',)
         if c < 0.98 and 'updatectx' in F:
             return ('updatectx', {n: V.pool(rng) for n in rng.sample(NAMES, rng.randint(1, 2))}, [self.gen_op(depth + 1)])
         return ('setsame', (rng.choice(NAMES), 'value'))
@@ -749,6 +754,18 @@ class Run:
                     c['exiting'] = True
                 self.log('discard-body-end')
             self.ctx.pop()
+        elif k == 'trigger-event':
+            if self.batched() or self.cbstack or self.trigger_active:
+                return
+            # an Event parameter announced by trigger (alone, or with an ordinary parameter): its watcher is called once,
+            # with True, 'triggered', while the object shows True; afterwards the object shows False again
+            self.log('trigger-event')
+            del self.ev_log[:]
+            self.o.param.trigger('ev')
+            self.stats['event_triggers'] = self.stats.get('event_triggers', 0) + 1
+            if self.ev_log != [(True, 'triggered', True)] or self.o.ev is not False:
+                self.err('event-parameter-trigger', f"trigger('ev'): the watcher of the Event parameter saw (new, type, value shown) = "
+                         f"{self.ev_log}, expected [(True, 'triggered', True)]; afterwards the object shows {self.o.ev!r}")
         elif k == 'spawn':
             # an instance of the class is created and used (reading its namespace gives it Parameter objects of its own):
             # nothing of that concerns the watchers of the class
